@@ -35,10 +35,12 @@ pub struct ServerOpts {
     pub pass_port_and_threads: bool,
     /// run the server under a wrapper command (e.g. strace -f -o log -e trace=%file)
     pub wrapper: Vec<String>,
+    /// limit on open file descriptors (RLIMIT_NOFILE) of the server process; None: inherited
+    pub nofile: Option<u64>,
 }
 
 impl ServerOpts {
-    pub fn new(docroot: &Path, threads: u32) -> ServerOpts { ServerOpts { docroot: docroot.to_path_buf(), ip: "127.0.0.1".into(), threads, env: vec![], args: vec![], port: None, pass_port_and_threads: true, wrapper: vec![] } }
+    pub fn new(docroot: &Path, threads: u32) -> ServerOpts { ServerOpts { docroot: docroot.to_path_buf(), ip: "127.0.0.1".into(), threads, env: vec![], args: vec![], port: None, pass_port_and_threads: true, wrapper: vec![], nofile: None } }
 }
 
 pub struct Server {
@@ -89,7 +91,7 @@ impl Server {
             for (k, v) in &opts.env { cmd.env(k, v); }
             for a in &opts.args { cmd.arg(a); }
             // the server must not outlive the worker that started it (watchdog, supervisor killed)
-            { use std::os::unix::process::CommandExt; unsafe { cmd.pre_exec(|| { libc::prctl(libc::PR_SET_PDEATHSIG, libc::SIGKILL); Ok(()) }); } }
+            { use std::os::unix::process::CommandExt; let nofile = opts.nofile; unsafe { cmd.pre_exec(move || { libc::prctl(libc::PR_SET_PDEATHSIG, libc::SIGKILL); if let Some(n) = nofile { let lim = libc::rlimit { rlim_cur: n as libc::rlim_t, rlim_max: n as libc::rlim_t }; libc::setrlimit(libc::RLIMIT_NOFILE, &lim); } Ok(()) }); } }
             let child = cmd.spawn().map_err(|e| format!("spawn {}: {}", rws_bin().display(), e))?;
             let addr: SocketAddr = format!("{}:{}", opts.ip, port).parse().map_err(|e| format!("{:?}", e))?;
             let mut s = Server { child, addr, threads: opts.threads, log, stopped: false };
